@@ -165,6 +165,9 @@ def run(db, res, tier):
       sample={"disabled": setbits, "forward_reaches": True, "inverse_reaches": not i_dead},
     )
   res.floor("implicitfast sibling gating obligations", nimp, 4)
+  from ..tables import flag_tables
+
+  r_flags.check_module_flags(res, db.sm, flag_tables.MODULE_FLAGS, modules={"inverse"})
   # (4c) sibling guard agreement (Engler: sibling implementations must agree on their argument checks): the kernel that
   # adds dt * d(damping force)/dv to the inertia diagonal in the Euler step and the kernel that applies the same
   # correction in the discrete-time inverse evaluate the same derivative function on the same model fields, and neither
